@@ -121,6 +121,19 @@ impl Gen {
             return 0;
         }
         let n = ws.len() as u64;
+        let v = self.draw_weighted_raw(n, ws, total);
+        // a replayed / shrunk tape may name an alternative whose weight is 0 (switched off):
+        // fall back to the nearest enabled alternative below it, else the first enabled one
+        if ws[v] > 0 {
+            return v;
+        }
+        let fixed = (0..v).rev().find(|i| ws[*i] > 0).or_else(|| (0..ws.len()).find(|i| ws[*i] > 0)).unwrap_or(0);
+        if let Some(last) = self.used.last_mut() {
+            *last = fixed as u64;
+        }
+        fixed
+    }
+    fn draw_weighted_raw(&mut self, n: u64, ws: &[u32], total: u64) -> usize {
         self.draw(n, |r| {
             let mut x = r.below(total);
             for (i, w) in ws.iter().enumerate() {
